@@ -274,7 +274,7 @@ pub fn run(args: &Args) -> i32 {
     }
     Prop::C16 => {
       cfg.collect_digests = true; slice = Slice::WfOrViol; cfg.bu_then = true;
-      if quick { groups.truncate(2); groups[0].depth = 4; groups[1].depth = 3; } else { groups.truncate(2); groups[0].depth = 5; groups[1] = Group { enums: vec![s(3, 2, 3)], depth: 4, shapes: false, gen_consumer_only: false, crashes: 0, inject: false, max_roots: None, faulty: false, slice: None }; }
+      if quick { groups.truncate(2); groups[0].depth = 4; groups[1].depth = 3; } else { groups.truncate(2); groups[0] = Group { enums: vec![s(2, 2, 4)], depth: 4, shapes: true, gen_consumer_only: false, crashes: 0, inject: false, max_roots: None, faulty: false, slice: None }; groups[1] = Group { enums: vec![s(3, 2, 3)], depth: 4, shapes: false, gen_consumer_only: false, crashes: 0, inject: false, max_roots: None, faulty: false, slice: None }; }
       // queue order with several scheduled tasks (the order must come from topological ranks, not from set iteration)
       groups.push(Group { enums: vec![if quick { sf(4, 2) } else { sf(4, 3) }], depth: if quick { 3 } else { 4 }, shapes: false, gen_consumer_only: false, crashes: 0, inject: false, max_roots: Some(2), faulty: false, slice: None });
     }
